@@ -372,6 +372,27 @@ impl Model {
         (oc, self.epoch, self.hashes[self.epoch as usize])
     }
 
+    /// the model as it stood at epoch `e` (tombstones carried over)
+    pub fn at_epoch(&self, e: u64) -> Model {
+        let mut users = BTreeMap::new();
+        for (l, vs) in &self.users {
+            let f: Vec<Ver> = vs.iter().filter(|v| v.epoch <= e).cloned().collect();
+            if !f.is_empty() {
+                users.insert(l.clone(), f);
+            }
+        }
+        Model {
+            cfg: self.cfg,
+            vrf: VrfOracle { cfg: self.cfg, key: VRFPrivateKey::try_from(&self.vrf.raw[..]).expect("key"), pk: VRFPublicKey::from(&VRFPrivateKey::try_from(&self.vrf.raw[..]).expect("key")), raw: self.vrf.raw, cache: self.vrf.cache.clone() },
+            ckey: self.ckey,
+            epoch: e.min(self.epoch),
+            users,
+            leaves: self.leaves_at(e),
+            hashes: self.hashes[..=(e.min(self.epoch) as usize)].to_vec(),
+            tombstoned: self.tombstoned.clone(),
+        }
+    }
+
     pub fn current(&self) -> (u64, H32) {
         (self.epoch, self.hashes[self.epoch as usize])
     }
